@@ -37,7 +37,7 @@ _FAIL = object()
 
 
 def budget(tier):
-    return {"examples": 3000 if tier == "quick" else 60000, "shards": 16, "shrink": 400 if tier == "quick" else 1500}
+    return {"examples": 3000 if tier == "quick" else 60000, "shards": 16, "shrink": 200 if tier == "quick" else 600}
 
 
 # ---------------------------------------------------------------------------------------------------------------------
